@@ -127,7 +127,7 @@ func genCall(t *rapid.T, c *Case, maxBody int) Call {
 	}
 	call.Method = rapid.SampledFrom([]string{"GET", "GET", "POST", "PUT", "DELETE"}).Draw(t, "method")
 	call.OpClient = rapid.IntRange(0, 2).Draw(t, "opclient") == 0
-	call.OpCtx = rapid.SampledFrom([]string{"", "", "", "live", "live", "cancelled", "background", "todo"}).Draw(t, "opctx")
+	call.OpCtx = rapid.SampledFrom([]string{"", "", "", "live", "live", "cancelled", "background", "todo", "expired", "soon"}).Draw(t, "opctx")
 	if call.BodyLen >= 0 {
 		call.BodyHead = rapid.SampledFrom([]string{"", "", "", "", "bom", "bom16", "gzip", "zip"}).Draw(t, "bodyhead")
 	}
@@ -158,7 +158,7 @@ func genRuntime(t *rapid.T) Case {
 		c.DefaultMT = rapid.SampledFrom(foreign).Draw(t, "defmt")
 	}
 	c.RtClient = rapid.SampledFrom([]string{"transport", "transport", "client"}).Draw(t, "rtclient")
-	c.RtCtx = rapid.SampledFrom([]string{"live", "live", "live", "nil", "cancelled"}).Draw(t, "rtctx")
+	c.RtCtx = rapid.SampledFrom([]string{"live", "live", "live", "nil", "cancelled", "expired", "soon", "soon"}).Draw(t, "rtctx")
 	return c
 }
 
@@ -175,7 +175,7 @@ func GenDispatch(t *rapid.T) Case {
 // GenConcurrent draws one Runtime and a batch of calls released together.
 func GenConcurrent(t *rapid.T) Case {
 	c := genRuntime(t)
-	if c.RtCtx == "cancelled" && rapid.Bool().Draw(t, "uncancel") {
+	if (c.RtCtx == "cancelled" || c.RtCtx == "expired") && rapid.Bool().Draw(t, "uncancel") {
 		c.RtCtx = "live"
 	}
 	c.Concurrent = true
@@ -290,6 +290,9 @@ func Classify(c Case) (bool, []string) {
 			if call.OpCtx != c.RtCtx && (call.OpCtx == "cancelled" || c.RtCtx == "cancelled") {
 				lab["one level cancelled, the other live"] = true
 			}
+			if call.OpCtx != "soon" && call.OpCtx != "expired" && call.OpCtx != "cancelled" && (c.RtCtx == "soon" || c.RtCtx == "expired") {
+				lab["runtime-level context with a deadline under an operation-level context without one"] = true
+			}
 		}
 		if call.ReaderErr {
 			lab["reader returns an error"] = true
@@ -331,10 +334,10 @@ func Classify(c Case) (bool, []string) {
 	return nt, out
 }
 
-const rule = "one fresh client.Runtime (consumer registry = subset of 6 lower-case types with/without */*, default media type registered or not, runtime-level client via Transport or NewWithClient, runtime-level context nil/live/cancelled) " +
+const rule = "one fresh client.Runtime (consumer registry = subset of 6 lower-case types with/without */*, default media type registered or not, runtime-level client via Transport or NewWithClient, runtime-level context nil/live/cancelled/deadline passed/deadline 20 s ahead) " +
 	"x scripted responses parsed from their HTTP/1.1 wire form (Content-Type exact / other case / parameters / inner whitespace / unregistered incl. near misses / absent / empty / malformed; status 200-599 incl. 204, 304 and 3xx without Location; 0-5 further headers with repetitions and case variants; empty to 70 kB bodies with Content-Length, chunked or close-delimited framing) " +
-	"x operation-level Client and Context (live or cancelled) and a reader that may fail; " +
-	"oracle = consumer identity per the statement (media type by construction, cross-checked with mime.ParseMediaType; registered, else */*, else an error naming the type; malformed/empty headers: error or catch-all or the type in front of ';'), reader sees Code/Message/GetHeader/GetHeaders/Body as scripted, tagged transports and context values show which client/context was used, Submit returns what the reader returned; " +
+	"x operation-level Client and Context (live, cancelled, context.Background(), context.TODO(), deadline passed, deadline 20 s ahead) and a reader that may fail; " +
+	"oracle = consumer identity per the statement (media type by construction, cross-checked with mime.ParseMediaType; registered, else */*, else an error naming the type; malformed/empty headers: error or catch-all or the type in front of ';'), reader sees Code/Message/GetHeader/GetHeaders/Body as scripted, tagged transports, context values and the deadline the request ran under show which client/context was used, Submit returns what the reader returned; " +
 	"non-trivial = a Content-Type header that is not byte-for-byte a registry key, or an operation-level client, or operation- and runtime-level contexts both set, or >=2 concurrent first calls; distinct by hash of the whole case"
 
 // Props lists the generated checks of C13.
